@@ -775,6 +775,16 @@ impl<'a> Drv<'a> {
             let sig = format!("fin={} ready={:?} running={}", fin, kinds, q2.len());
             viol!(self, "C10", "not-quiescent-after-abort", sig, "after abort: finished={} ready={:?} running={:?}", fin, r2, q2);
         }
+        {
+            let snap = self.ev.verif_snapshot();
+            for j in &r2 {
+                if let Some(js) = snap.jobs.iter().find(|x| &x.job_id == j) {
+                    if js.finished {
+                        viol!(self, "C17", "offered-finished", self.kc(j), "{} still reported ready to run after the abort although it is finished ({})", j, js.state);
+                    }
+                }
+            }
+        }
         // the driver's running set is empty now, but running_at_abort jobs were never reported: skip the
         // running-set comparison by observing with what the engine says is aborted
         let snap = self.ev.verif_snapshot();
